@@ -39,7 +39,12 @@ try:
     ap = subprocess.run(["git", "-C", wt, "apply", "--whitespace=nowarn", os.path.join(src, "patch.diff")], capture_output=True, text=True)
     out["applied"] = ap.returncode == 0
     out["apply_err"] = ap.stderr[-300:]
+    for pth in placed:      # the suite is the EXISTING tests: run it without the demo file
+        os.remove(os.path.join(wt, pth))
     rcs, os_ = sh(suite_cmd)
+    for fn in os.listdir(os.path.join(src, "demo")):
+        if fn.endswith(".go"):
+            shutil.copy(os.path.join(src, "demo", fn), os.path.join(wt, pkgdir, fn))
     fails = set(re.findall(r"--- FAIL: (\S+)", os_)) - {"TestConjureLibConfigResolveBlocklisted"}
     fails = {f for f in fails if "SeedDemo" not in f and "Seed" not in f}
     build_fail = "[build failed]" in os_ or "cannot" in os_ and "undefined" in os_
